@@ -995,11 +995,11 @@ let dempty =
 
 (** val effective : tcfg -> tcfg -> tcfg -> tcfg -> env -> tcfg **)
 
-let effective cli tc doc fmt forced =
+let effective cli tc doc0 fmt forced =
   with_defaults
     (with_environment
-      (with_overrides (with_defaults (with_defaults tc doc) fmt) cli) forced)
-    doc
+      (with_overrides (with_defaults (with_defaults tc doc0) fmt) cli) forced)
+    doc0
 
 (** val opt_eqb : ('a1 -> 'a1 -> bool) -> 'a1 option -> 'a1 option -> bool **)
 
@@ -1015,7 +1015,7 @@ let opt_eqb eqb1 a b =
 (** val precedence_b :
     tcfg -> tcfg -> tcfg -> tcfg -> env -> n list -> tcfg -> bool **)
 
-let precedence_b cli tc doc fmt forced keys r =
+let precedence_b cli tc doc0 fmt forced keys r =
   (&&)
     ((&&)
       ((&&)
@@ -1025,30 +1025,31 @@ let precedence_b cli tc doc fmt forced keys r =
               ((&&)
                 (opt_eqb N.eqb r.output_stream
                   (first_some
-                    (cli.output_stream :: (tc.output_stream :: (doc.output_stream :: (fmt.output_stream :: []))))))
+                    (cli.output_stream :: (tc.output_stream :: (doc0.output_stream :: (fmt.output_stream :: []))))))
                 (opt_eqb eqb0 r.keep_crlf
                   (first_some
-                    (cli.keep_crlf :: (tc.keep_crlf :: (doc.keep_crlf :: (fmt.keep_crlf :: [])))))))
+                    (cli.keep_crlf :: (tc.keep_crlf :: (doc0.keep_crlf :: (fmt.keep_crlf :: [])))))))
               (opt_eqb N.eqb r.timeout
                 (first_some
-                  (cli.timeout :: (tc.timeout :: (doc.timeout :: (fmt.timeout :: [])))))))
+                  (cli.timeout :: (tc.timeout :: (doc0.timeout :: (fmt.timeout :: [])))))))
             (opt_eqb eqb0 r.detached
               (first_some
-                (cli.detached :: (tc.detached :: (doc.detached :: (fmt.detached :: [])))))))
+                (cli.detached :: (tc.detached :: (doc0.detached :: (fmt.detached :: [])))))))
           (opt_eqb Z.eqb r.skip_code
             (first_some
-              (cli.skip_code :: (tc.skip_code :: (doc.skip_code :: (fmt.skip_code :: [])))))))
+              (cli.skip_code :: (tc.skip_code :: (doc0.skip_code :: (fmt.skip_code :: [])))))))
         (opt_eqb eqb0 r.strip_ansi
           (first_some
-            (cli.strip_ansi :: (tc.strip_ansi :: (doc.strip_ansi :: (fmt.strip_ansi :: [])))))))
+            (cli.strip_ansi :: (tc.strip_ansi :: (doc0.strip_ansi :: (fmt.strip_ansi :: [])))))))
       (opt_eqb N.eqb r.wait
-        (first_some (cli.wait :: (tc.wait :: (doc.wait :: (fmt.wait :: [])))))))
+        (first_some
+          (cli.wait :: (tc.wait :: (doc0.wait :: (fmt.wait :: [])))))))
     (forallb (fun k ->
       opt_eqb N.eqb (lookup k r.environment)
         (first_some
           ((lookup k forced) :: ((lookup k cli.environment) :: ((lookup k
                                                                   tc.environment) :: (
-          (lookup k doc.environment) :: ((lookup k fmt.environment) :: [])))))))
+          (lookup k doc0.environment) :: ((lookup k fmt.environment) :: [])))))))
       keys)
 
 (** val default_skip_document_code : z **)
@@ -7399,9 +7400,9 @@ let rec update_toks ts bodies =
 
 (** val update_md : text list -> text list list -> text list **)
 
-let update_md doc bodies = match bodies with
-| [] -> doc
-| _ :: _ -> update_toks (md_tokens doc) bodies
+let update_md doc0 bodies = match bodies with
+| [] -> doc0
+| _ :: _ -> update_toks (md_tokens doc0) bodies
 
 (** val is_test : token -> bool **)
 
@@ -8988,6 +8989,294 @@ let result_ok o =
   match o.o_res with
   | OMalformed (n0, d) -> forallb (dline_ok o.o_nexps n0) d
   | _ -> true
+
+(** val env_always : (n list * n list option) list **)
+
+let env_always =
+  (((Npos (XO (XO (XI (XO (XI (XO XH))))))) :: ((Npos (XI (XO (XI (XO (XO (XO
+    XH))))))) :: ((Npos (XI (XI (XO (XO (XI (XO XH))))))) :: ((Npos (XO (XO
+    (XI (XO (XI (XO XH))))))) :: ((Npos (XO (XO (XI (XO (XO (XO
+    XH))))))) :: ((Npos (XI (XO (XO (XI (XO (XO XH))))))) :: ((Npos (XO (XI
+    (XO (XO (XI (XO XH))))))) :: []))))))), None) :: ((((Npos (XO (XO (XI (XO
+    (XI (XO XH))))))) :: ((Npos (XI (XO (XI (XO (XO (XO XH))))))) :: ((Npos
+    (XI (XI (XO (XO (XI (XO XH))))))) :: ((Npos (XO (XO (XI (XO (XI (XO
+    XH))))))) :: ((Npos (XO (XI (XI (XO (XO (XO XH))))))) :: ((Npos (XI (XO
+    (XO (XI (XO (XO XH))))))) :: ((Npos (XO (XO (XI (XI (XO (XO
+    XH))))))) :: ((Npos (XI (XO (XI (XO (XO (XO XH))))))) :: [])))))))),
+    None) :: ((((Npos (XO (XO (XI (XO (XI (XO XH))))))) :: ((Npos (XI (XO (XI
+    (XI (XO (XO XH))))))) :: ((Npos (XO (XO (XO (XO (XI (XO
+    XH))))))) :: ((Npos (XO (XO (XI (XO (XO (XO XH))))))) :: ((Npos (XI (XO
+    (XO (XI (XO (XO XH))))))) :: ((Npos (XO (XI (XO (XO (XI (XO
+    XH))))))) :: [])))))), None) :: ((((Npos (XO (XO (XI (XO (XI (XO
+    XH))))))) :: ((Npos (XI (XO (XI (XO (XO (XO XH))))))) :: ((Npos (XI (XI
+    (XO (XO (XI (XO XH))))))) :: ((Npos (XO (XO (XI (XO (XI (XO
+    XH))))))) :: ((Npos (XI (XI (XO (XO (XI (XO XH))))))) :: ((Npos (XO (XO
+    (XO (XI (XO (XO XH))))))) :: ((Npos (XI (XO (XI (XO (XO (XO
+    XH))))))) :: ((Npos (XO (XO (XI (XI (XO (XO XH))))))) :: ((Npos (XO (XO
+    (XI (XI (XO (XO XH))))))) :: []))))))))), None) :: ((((Npos (XO (XO (XI
+    (XI (XO (XO XH))))))) :: ((Npos (XI (XO (XO (XO (XO (XO
+    XH))))))) :: ((Npos (XO (XI (XI (XI (XO (XO XH))))))) :: ((Npos (XI (XI
+    (XI (XO (XO (XO XH))))))) :: [])))), (Some ((Npos (XI (XI (XO (XO (XO (XO
+    XH))))))) :: []))) :: ((((Npos (XO (XO (XI (XI (XO (XO
+    XH))))))) :: ((Npos (XI (XO (XO (XO (XO (XO XH))))))) :: ((Npos (XO (XI
+    (XI (XI (XO (XO XH))))))) :: ((Npos (XI (XI (XI (XO (XO (XO
+    XH))))))) :: ((Npos (XI (XO (XI (XO (XI (XO XH))))))) :: ((Npos (XI (XO
+    (XO (XO (XO (XO XH))))))) :: ((Npos (XI (XI (XI (XO (XO (XO
+    XH))))))) :: ((Npos (XI (XO (XI (XO (XO (XO XH))))))) :: [])))))))),
+    (Some ((Npos (XI (XI (XO (XO (XO (XO XH))))))) :: []))) :: ((((Npos (XO
+    (XO (XI (XI (XO (XO XH))))))) :: ((Npos (XI (XI (XO (XO (XO (XO
+    XH))))))) :: ((Npos (XI (XI (XI (XI (XI (XO XH))))))) :: ((Npos (XI (XO
+    (XO (XO (XO (XO XH))))))) :: ((Npos (XO (XO (XI (XI (XO (XO
+    XH))))))) :: ((Npos (XO (XO (XI (XI (XO (XO XH))))))) :: [])))))), (Some
+    ((Npos (XI (XI (XO (XO (XO (XO XH))))))) :: []))) :: ((((Npos (XO (XO (XI
+    (XO (XI (XO XH))))))) :: ((Npos (XO (XI (XO (XI (XI (XO
+    XH))))))) :: [])), (Some ((Npos (XI (XI (XI (XO (XO (XO
+    XH))))))) :: ((Npos (XI (XO (XI (XI (XO (XO XH))))))) :: ((Npos (XO (XO
+    (XI (XO (XI (XO XH))))))) :: []))))) :: ((((Npos (XI (XI (XO (XO (XO (XO
+    XH))))))) :: ((Npos (XI (XI (XI (XI (XO (XO XH))))))) :: ((Npos (XO (XO
+    (XI (XI (XO (XO XH))))))) :: ((Npos (XI (XO (XI (XO (XI (XO
+    XH))))))) :: ((Npos (XI (XO (XI (XI (XO (XO XH))))))) :: ((Npos (XO (XI
+    (XI (XI (XO (XO XH))))))) :: ((Npos (XI (XI (XO (XO (XI (XO
+    XH))))))) :: []))))))), (Some ((Npos (XO (XO (XO (XI (XI
+    XH)))))) :: ((Npos (XO (XO (XO (XO (XI XH)))))) :: [])))) :: ((((Npos (XI
+    (XI (XO (XO (XO (XO XH))))))) :: ((Npos (XO (XO (XI (XO (XO (XO
+    XH))))))) :: ((Npos (XO (XO (XO (XO (XI (XO XH))))))) :: ((Npos (XI (XO
+    (XO (XO (XO (XO XH))))))) :: ((Npos (XO (XO (XI (XO (XI (XO
+    XH))))))) :: ((Npos (XO (XO (XO (XI (XO (XO XH))))))) :: [])))))), (Some
+    [])) :: ((((Npos (XI (XI (XI (XO (XO (XO XH))))))) :: ((Npos (XO (XI (XO
+    (XO (XI (XO XH))))))) :: ((Npos (XI (XO (XI (XO (XO (XO
+    XH))))))) :: ((Npos (XO (XO (XO (XO (XI (XO XH))))))) :: ((Npos (XI (XI
+    (XI (XI (XI (XO XH))))))) :: ((Npos (XI (XI (XI (XI (XO (XO
+    XH))))))) :: ((Npos (XO (XO (XO (XO (XI (XO XH))))))) :: ((Npos (XO (XO
+    (XI (XO (XI (XO XH))))))) :: ((Npos (XI (XO (XO (XI (XO (XO
+    XH))))))) :: ((Npos (XI (XI (XI (XI (XO (XO XH))))))) :: ((Npos (XO (XI
+    (XI (XI (XO (XO XH))))))) :: ((Npos (XI (XI (XO (XO (XI (XO
+    XH))))))) :: [])))))))))))), (Some [])) :: []))))))))))
+
+(** val env_cram_compat : (n list * n list option) list **)
+
+let env_cram_compat =
+  (((Npos (XI (XI (XO (XO (XO (XO XH))))))) :: ((Npos (XO (XI (XO (XO (XI (XO
+    XH))))))) :: ((Npos (XI (XO (XO (XO (XO (XO XH))))))) :: ((Npos (XI (XO
+    (XI (XI (XO (XO XH))))))) :: ((Npos (XO (XO (XI (XO (XI (XO
+    XH))))))) :: ((Npos (XI (XO (XI (XI (XO (XO XH))))))) :: ((Npos (XO (XO
+    (XO (XO (XI (XO XH))))))) :: []))))))), None) :: ((((Npos (XO (XO (XI (XO
+    (XI (XO XH))))))) :: ((Npos (XI (XO (XI (XI (XO (XO XH))))))) :: ((Npos
+    (XO (XO (XO (XO (XI (XO XH))))))) :: []))), None) :: ((((Npos (XO (XO (XI
+    (XO (XI (XO XH))))))) :: ((Npos (XI (XO (XI (XO (XO (XO
+    XH))))))) :: ((Npos (XI (XO (XI (XI (XO (XO XH))))))) :: ((Npos (XO (XO
+    (XO (XO (XI (XO XH))))))) :: [])))), None) :: []))
+
+(** val mem : n list -> n list list -> bool **)
+
+let rec mem x = function
+| [] -> false
+| y :: r -> (||) (text_eqb x y) (mem x r)
+
+(** val candidate : n list -> nat -> n list **)
+
+let candidate name k = match k with
+| O -> name
+| S _ ->
+  app name (app ((Npos (XI (XO (XI (XI (XO XH)))))) :: []) (dec (N.of_nat k)))
+
+(** val search :
+    nat -> n list list -> n list list -> n list -> nat -> n list option **)
+
+let rec search fuel names exists_ name k =
+  match fuel with
+  | O -> None
+  | S f ->
+    let c = candidate name k in
+    if (||) (mem c names) (mem c exists_)
+    then search f names exists_ name (S k)
+    else Some c
+
+(** val next_name :
+    n list list -> n list list -> n list -> (n list * n list list) option **)
+
+let next_name names exists_ name =
+  match search (S (S (add (length names) (length exists_)))) names exists_
+          name O with
+  | Some c -> Some (c, (c :: names))
+  | None -> None
+
+(** val next_names :
+    n list list -> n list list -> n list list -> n list list option **)
+
+let rec next_names names exists_ = function
+| [] -> Some []
+| r :: rest ->
+  (match next_name names exists_ r with
+   | Some p ->
+     let (c, names') = p in
+     option_map (fun x -> c :: x) (next_names names' exists_ rest)
+   | None -> None)
+
+type flag =
+| FDefault
+| FWork
+| FKeep
+
+type dclass =
+| DRun
+| DBadInclude
+| DExecError
+
+type seg =
+| SExec of nat
+| STemp of nat
+| SState of nat
+| STmpSub
+| SDoc of n list
+| SFile of nat
+| SGiven
+
+type path = seg list
+
+(** val seg_eqb : seg -> seg -> bool **)
+
+let seg_eqb a b =
+  match a with
+  | SExec i -> (match b with
+                | SExec j -> Nat.eqb i j
+                | _ -> false)
+  | STemp i -> (match b with
+                | STemp j -> Nat.eqb i j
+                | _ -> false)
+  | SState i -> (match b with
+                 | SState j -> Nat.eqb i j
+                 | _ -> false)
+  | STmpSub -> (match b with
+                | STmpSub -> true
+                | _ -> false)
+  | SDoc x -> (match b with
+               | SDoc y -> text_eqb x y
+               | _ -> false)
+  | SFile i -> (match b with
+                | SFile j -> Nat.eqb i j
+                | _ -> false)
+  | SGiven -> (match b with
+               | SGiven -> true
+               | _ -> false)
+
+(** val is_prefix : path -> path -> bool **)
+
+let rec is_prefix p q =
+  match p with
+  | [] -> true
+  | a :: p' ->
+    (match q with
+     | [] -> false
+     | b :: q' -> (&&) (seg_eqb a b) (is_prefix p' q'))
+
+type fs = path list
+
+(** val create : path -> fs -> fs **)
+
+let create p s =
+  p :: s
+
+(** val remove_tree : path -> fs -> fs **)
+
+let remove_tree p s =
+  filter (fun q -> negb (is_prefix p q)) s
+
+(** val env_create : flag -> nat -> fs -> fs **)
+
+let env_create f i s =
+  match f with
+  | FDefault ->
+    create ((SExec i) :: (STmpSub :: [])) (create ((SExec i) :: []) s)
+  | FWork -> create (SGiven :: ((STemp i) :: [])) s
+  | FKeep -> create ((STemp i) :: []) (create ((SExec i) :: []) s)
+
+(** val env_drop : flag -> nat -> fs -> fs **)
+
+let env_drop f i s =
+  match f with
+  | FDefault -> remove_tree ((SExec i) :: []) s
+  | FWork -> remove_tree (SGiven :: ((STemp i) :: [])) s
+  | FKeep -> s
+
+(** val work_dir : flag -> nat -> n list -> path **)
+
+let work_dir f i name =
+  match f with
+  | FWork -> SGiven :: []
+  | _ -> (SExec i) :: ((SDoc name) :: [])
+
+(** val tmp_dir : flag -> nat -> path **)
+
+let tmp_dir f i =
+  match f with
+  | FDefault -> (SExec i) :: (STmpSub :: [])
+  | FWork -> SGiven :: ((STemp i) :: [])
+  | FKeep -> (STemp i) :: []
+
+type doc = { d_name : n list; d_class : dclass; d_work_files : nat list;
+             d_tmp_files : nat list }
+
+(** val dir_run_doc : flag -> nat -> doc -> fs -> fs * bool **)
+
+let dir_run_doc f i d s =
+  let s1 = env_create f i s in
+  (match d.d_class with
+   | DRun ->
+     let wd = work_dir f i d.d_name in
+     let s2 = match f with
+              | FWork -> s1
+              | _ -> create wd s1 in
+     let s3 = create (app (tmp_dir f i) ((SState i) :: [])) s2 in
+     let s4 =
+       fold_right (fun id acc -> create (app wd ((SFile id) :: [])) acc) s3
+         d.d_work_files
+     in
+     let s5 =
+       fold_right (fun id acc ->
+         create (app (tmp_dir f i) ((SFile id) :: [])) acc) s4 d.d_tmp_files
+     in
+     let s6 = remove_tree (app (tmp_dir f i) ((SState i) :: [])) s5 in
+     ((env_drop f i s6), true)
+   | DBadInclude -> ((env_drop f i s1), false)
+   | DExecError ->
+     let wd = work_dir f i d.d_name in
+     let s2 = match f with
+              | FWork -> s1
+              | _ -> create wd s1 in
+     let s3 = create (app (tmp_dir f i) ((SState i) :: [])) s2 in
+     let s4 =
+       fold_right (fun id acc -> create (app wd ((SFile id) :: [])) acc) s3
+         d.d_work_files
+     in
+     let s5 =
+       fold_right (fun id acc ->
+         create (app (tmp_dir f i) ((SFile id) :: [])) acc) s4 d.d_tmp_files
+     in
+     let s6 = remove_tree (app (tmp_dir f i) ((SState i) :: [])) s5 in
+     ((env_drop f i s6), false))
+
+(** val dir_run_docs : flag -> nat -> doc list -> fs -> fs **)
+
+let rec dir_run_docs f i ds s =
+  match ds with
+  | [] -> s
+  | d :: r ->
+    let (s', go0) = dir_run_doc f i d s in
+    if go0 then dir_run_docs f (S i) r s' else s'
+
+(** val dir_processed : doc list -> nat **)
+
+let rec dir_processed = function
+| [] -> O
+| d :: r -> (match d.d_class with
+             | DRun -> S (dir_processed r)
+             | _ -> S O)
+
+(** val scrut_test_value : n list -> n -> n list **)
+
+let scrut_test_value file line =
+  app file (app ((Npos (XO (XI (XO (XI (XI XH)))))) :: []) (dec line))
 
 (** val make_exp : bool -> bool -> (nat -> bool) -> nat exp **)
 
